@@ -83,7 +83,8 @@ func jobDeadline(r *mc.Run, quick, thorough time.Duration) int64 {
 			b = d
 		}
 	}
-	return time.Now().Add(b).UnixMilli()
+	// workers stop a little before the parent's soft deadline so that in-flight probes finish inside it
+	return time.Now().Add(b * 85 / 100).UnixMilli()
 }
 
 // Hit is a variant (or another probe) that EXECUTED although it must not.
@@ -435,8 +436,16 @@ func runLongWindow(j Job) (res Result) {
 			res.Outcomes[fmt.Sprintf("long-window|h=%d|%s|executed=%v|%s", h, v.ClassKey(), ex, txlab.ErrClass(et))]++
 			fresh := strings.HasPrefix(v.Classes[0], "fresh-")
 			insideFresh := fresh && strings.HasSuffix(v.Classes[0], fmt.Sprintf("-%d", fsm.BlockAcceptanceRange))
-			if ex && !insideFresh {
+			baseOutside := h-fsm.BlockAcceptanceRange > 1 // the original was created at height 1
+			switch {
+			case !ex || insideFresh:
+			case fresh || baseOutside:
 				res.Hits = append(res.Hits, Hit{Kind: "window", Class: "lower-edge:" + v.ClassKey(), Where: fmt.Sprintf("height %d", h), Desc: v.Desc, BaseHex: hex.EncodeToString(base), VarHex: hex.EncodeToString(v.Raw), Diff: txlab.DescribeDiff(diff, w)})
+			default:
+				// still inside the window, thousands of blocks after inclusion: this is a replay
+				res.Hits = append(res.Hits, Hit{Kind: "replay", Class: v.ClassKey(), Classes: v.Classes, Depth: 1, Where: fmt.Sprintf("height %d, the last height at which created-height 1 is inside the window", h), Desc: v.Desc, Base: "send/bls (created at 1, included at 3)",
+					BaseHex: hex.EncodeToString(base), VarHex: hex.EncodeToString(v.Raw), Diff: txlab.DescribeDiff(diff, w), SameCont: sameContent(base, v.Raw)})
+				res.stat("replay|d1|"+v.ClassKey()).Executed++
 			}
 		}
 		if step == 0 {
